@@ -124,6 +124,12 @@ type Case struct {
 	// Then: unit cases only: the next request of a sequence, built on the SAME client
 	// Runtime and judged by the SAME authenticator value when its description is equal
 	Then *Case `json:"then,omitempty"`
+	// Hostile (read on the first case of a sequence, holds for all its steps): the
+	// application keeps ONE writer instance per credential description and uses it for
+	// every request and every (re-)assignment of Runtime.DefaultAuthentication, and after
+	// each step the caller overwrites in place every header / form value of the request
+	// it built and of the request the server received, then empties those maps.
+	Hostile bool `json:"hostile,omitempty"`
 }
 
 // ---- reference: what the request carries ----
